@@ -159,6 +159,16 @@ class C14(Prop):
                 r = [est.relative_capture(sig), est.capture(sig)]
                 if est.registered:
                     r += [est.system_relative_capture(xprobe), est.system_capture(xprobe), est.in_system(xprobe), est.in_hull(np.array([[3.0, 2.5, 4.0]]))]
+                    if np.all(np.isfinite(est.ub)):
+                        # queries that go through the gamut's vertex set
+                        Bq = np.array([[3.0, 2.5, 4.0], [0.0, 0.0, 0.0], [9.0, 0.5, 0.5]])
+                        for f in (lambda: est.sample_in_gamut(3, seed=1), lambda: est.compute_gamut(seed=1),
+                                  lambda: call(est.gamut_l1_scaling, Bq), lambda: call(est.gamut_dist_scaling, Bq),
+                                  lambda: est.in_hull(Bq[[0, 2]], normalized=True)):
+                            try:
+                                r.append(f())
+                            except Exception as e:  # noqa  (e.g. neutral point outside the chromatic gamut: same on both calls)
+                                r.append(np.array([hash(type(e).__name__) % 1000], dtype=float))
                 return [np.asarray(v, dtype=float) for v in r]
             q1 = queries(); q2 = queries(); snap2 = snapshot()
             def same(a, b):
@@ -195,8 +205,11 @@ class C14(Prop):
             # registered targets / per-sample weights are registered values too
             tw.register_targets(np.array(est.B), W=(None if est.W is est.w else np.array(est.W)))
         Bq = np.array([[3.0, 2.5, 4.0], [40.0, 1.0, 1.0]])
+        fin = bool(np.all(np.isfinite(est.ub)))
         for name, f in [("in_hull", lambda e: e.in_hull(Bq)), ("fit(B)", lambda e: np.hstack(e.fit(Bq, **HI))),
-                        ("sample_in_gamut(seed)", lambda e: e.sample_in_gamut(5, seed=3) if np.all(np.isfinite(e.ub)) else np.zeros(1))]:
+                        ("sample_in_gamut(seed)", lambda e: e.sample_in_gamut(5, seed=3) if fin else np.zeros(1)),
+                        ("compute_gamut(seed)", lambda e: np.atleast_1d(e.compute_gamut(seed=2)) if fin else np.zeros(1)),
+                        ("in_hull(normalized)", lambda e: e.in_hull(Bq, normalized=True) if fin else np.zeros(1))]:
             try:
                 a = np.asarray(f(est), dtype=float)
             except Exception as ea:  # noqa
